@@ -645,7 +645,7 @@ def gen_simple_stmt(rng, env, depth):
     lab = gen_label(rng, env.knobs.get("p_label", 0.06))
     E = lambda d=depth, **kw: gen_expr(rng, env, d, **kw)
     k = rng.choice(["assign"] * 6 + ["call"] * 5 + ["ifcall"] * 3 + ["ifbare"] * 3 + ["ifassign"] * 2 + ["io"] * 3 + ["print"] * 2 +
-                   ["alloc", "whereassign", "forallassign", "stop", "plain", "ifarith", "ptr", "format", "goto"])
+                   ["alloc", "whereassign", "forallassign", "stop", "plain", "ifarith", "ptr", "format", "goto", "goto"])
     if k == "assign":
         return ("form", lab, sp, ("FAssign", gen_lhs(rng, env, depth), E()))
     if k == "ptr":
